@@ -199,6 +199,8 @@ def run_vrt_scenario(exe, scen, job, deadline_s, outdir):
         cmd += ['--no-cache']
     if job.get('spurious'):
         cmd += ['--spurious']
+    if job.get('cache_bits'):
+        cmd += ['--cache-bits', str(job['cache_bits'])]
     if job.get('max_viol'):
         cmd += ['--max-viol-execs', str(job['max_viol'])]
     r = sh(cmd)
